@@ -143,7 +143,7 @@ def build(case, decay_rate=None):
 
 
 ERR_CLASS = {
-    "irfLength": "ModelError", "noDispersionCenter": "ModelError", "noIrf": None, "order": "ModelError",
+    "irfLength": "ModelError", "scaleLength": "ModelError", "noDispersionCenter": "ModelError", "noIrf": None, "order": "ModelError",
     "axisTooShort": "ValueError", "zipStrict": "ValueError", "noIndex": "TypeError",
 }
 
@@ -155,6 +155,10 @@ def run_real(case):
         g = np.asarray(case["global_axis"], dtype=np.float64)
         m = np.asarray(case["model_axis"], dtype=np.float64)
         with np.errstate(all="ignore"):
+            # An optimisation evaluates the megacomplex again and again on the *same* axis arrays, so what is observed is
+            # the second of two evaluations on the same arrays (seeded change C07-1: the spectral axis scaled in place,
+            # first evaluation right, every later one on scale**n * axis).
+            mc.calculate_matrix(dm, g, m)
             labels, matrix = mc.calculate_matrix(dm, g, m)
         return "ok", [str(l) for l in labels], np.asarray(matrix, dtype=np.float64)
     except Exception as e:  # noqa: BLE001 - the class is the observable
